@@ -37,7 +37,7 @@ class Macro:
     pass
 
 
-def gen_macro(rng, k, macros, var):
+def gen_macro(rng, k, macros, var, globs=(), taint=False):
     m = Macro()
     m.name = "mac%d" % k
     np = rng.randrange(1, 4)
@@ -49,18 +49,34 @@ def gen_macro(rng, k, macros, var):
     regs = [n for n, kd in m.params if kd == "reg"]
     labels = ["lb%s" % c for c in "ab"[: rng.randrange(0, 3)]]
     m.labels = labels
-    body = []          # list of ('label', name) | ('instr', [tokens]) where tokens are ('t', text)|('sub', p)|('val', p)|('lab', name)
+    # locals of the production, assigned before the block and passed by value as `{v}`
+    m.locals = []
+    if rng.random() < 0.3:
+        for i in range(rng.randrange(1, 3)):
+            if nums and rng.random() < 0.8:
+                e = [("par", rng.choice(nums)), ("t", rng.choice([" + 3", " * 2", " + 0x10", ""]))]
+            else:
+                e = [("t", str(rng.randrange(0, 40)))]
+            m.locals.append(("v%d" % i, e))
+    lvals = [n for n, _ in m.locals]
+    m.f40 = False
+    body = []          # list of ('label', name) | ('instr', [tokens]) where tokens are ('t', text)|('sub', p)|('val', v)|('lab', name)
     pend = list(labels)
 
     def num(allow_label=True):
         r = rng.random()
         # (a bare parameter name is not visible inside the block's instructions: hygiene; only `{p}` is)
+        if lvals and r < 0.3:
+            return [("val", rng.choice(lvals))] + ([("t", " * 2")] if rng.random() < 0.3 else [])
         if nums and r < 0.5:
             return [("sub", rng.choice(nums))]
         if nums and r < 0.65:
             return [("sub", rng.choice(nums)), ("t", " * 2")]
-        if labels and allow_label and r < 0.85:
+        if labels and allow_label and r < 0.8:
             return [("lab", rng.choice(labels))]
+        if globs and r < 0.9:
+            # a global symbol named in the block's own text (declared before or after the call)
+            return [("t", rng.choice(list(globs)))]
         return [("t", str(rng.randrange(0, 60)))]
 
     def reg():
@@ -90,9 +106,21 @@ def gen_macro(rng, k, macros, var):
             for i, (pn, kd) in enumerate(callee.params):
                 if i:
                     toks.append(("t", ", "))
-                toks += reg() if kd == "reg" else ([("t", str(rng.randrange(0, 50)))] if kd == "u8" and rng.random() < 0.5 else num(False)[:1])
+                if kd == "reg":
+                    toks += reg()
+                elif kd == "u8" and rng.random() < 0.5:
+                    toks.append(("t", str(rng.randrange(0, 50))))
+                elif taint and (labels or lvals) and rng.random() < 0.6:
+                    # an argument that names something local to this block (a block label, or a local of the production
+                    # passed by value): the callee substitutes the text in its own block, where the name is not bound (F40)
+                    toks.append(("lab", rng.choice(labels)) if labels and (not lvals or rng.random() < 0.5) else ("val", rng.choice(lvals)))
+                    m.f40 = True
+                else:
+                    t0 = num(False)[0]
+                    toks.append(t0 if t0[0] != "val" else ("t", str(rng.randrange(0, 50))))
             body.append(("instr", toks))
             m.nested = True
+            m.calls = getattr(m, "calls", []) + [callee.name]
         else:
             body.append(("instr", [("t", "nop")]))
     for l in pend:
@@ -108,16 +136,24 @@ def macro_text(m):
         if b[0] == "label":
             lines.append("        %s:" % b[1])
         else:
-            lines.append("        " + "".join({"t": lambda x: x, "sub": lambda x: "{%s}" % x, "val": lambda x: x, "lab": lambda x: x}[k](v) for k, v in b[1]))
+            lines.append("        " + "".join({"t": lambda x: x, "sub": lambda x: "{%s}" % x, "val": lambda x: "{%s}" % x, "lab": lambda x: x}[k](v) for k, v in b[1]))
+    if m.locals:
+        pre = "".join("        %s = %s\n" % (n, "".join(v for _, v in e)) for n, e in m.locals)
+        return "    %s => {\n%s        asm {\n%s\n        }\n    }" % (pat, pre, "\n".join(lines))
     return "    %s => asm {\n%s\n    }" % (pat, "\n".join(lines))
 
 
-def expand(macros, name, args, counter, depth=0):
-    """hand-inlined lines of one call (args: list of argument texts)"""
+def expand(macros, name, args, counter, depth=0, only=None):
+    """hand-inlined lines of one call (args: list of argument texts); with `only`, calls of macros outside that set are
+    left as calls (with the argument texts substituted)"""
     m = [x for x in macros if x.name == name][0]
     counter[0] += 1
     tag = "_x%d" % counter[0]
     amap = dict((pn, a) for (pn, _), a in zip(m.params, args))
+    vmap = {}
+    for n, e in m.locals:
+        # a local is passed by value: its expression over the parameters' values, as one parenthesised term
+        vmap[n] = "(" + "".join(("(" + amap[v] + ")") if k == "par" else v for k, v in e) + ")"
     out = []
     for b in m.body:
         if b[0] == "label":
@@ -130,23 +166,26 @@ def expand(macros, name, args, counter, depth=0):
             elif k == "sub":
                 text += amap[v]
             elif k == "val":
-                text += "(" + amap[v] + ")"
+                text += vmap[v]
             else:
                 text += v + tag
         mt = re.match(r"(mac\d+) (.*)", text)
-        if mt:
-            out += expand(macros, mt.group(1), [a.strip() for a in mt.group(2).split(",")], counter, depth + 1)
+        if mt and (only is None or mt.group(1) in only):
+            out += expand(macros, mt.group(1), [a.strip() for a in mt.group(2).split(",")], counter, depth + 1, only)
         else:
             out.append("    " + text)
     return out
 
 
-def gen_macro_program(rng, var):
+def gen_macro_program(rng, var, taint=False):
+    """(macro program, hand-inlined program, non-trivial?, semi-inlined program or None).  With `taint`, some nested calls
+    pass a block label or a by-value local of the calling production (finding F40); the semi-inlined program then inlines
+    exactly the macros that do so (directly or through a macro they call) and leaves every other call in place."""
     nm = rng.randrange(1, 4)
     macros = []
-    for k in range(nm):
-        macros.append(gen_macro(rng, k, macros[:], var))
     globs = ["g%d" % i for i in range(rng.randrange(1, 4))]
+    for k in range(nm):
+        macros.append(gen_macro(rng, k, macros[:], var, globs, taint))
     lines = []       # ('label', n) | ('call', name, args) | ('raw', text)
     pend = list(globs)
     for _ in range(rng.randrange(2, 8)):
@@ -176,17 +215,22 @@ def gen_macro_program(rng, var):
     head = "#ruledef\n{\n" + BASE + (VAR if var else "")
     mtext = head + "\n".join(macro_text(m) for m in macros) + "\n}\n" + SUB
     itext = head + "}\n" + SUB
-    counter = [0]
-    a, b = [], []
+    tainted = set()
+    for m in macros:            # in order of definition: a macro only calls earlier ones
+        if m.f40 or any(c in tainted for c in getattr(m, "calls", [])):
+            tainted.add(m.name)
+    counter, counter2 = [0], [0]
+    a, b, c = [], [], []
     for l in lines:
         if l[0] == "label":
-            a.append(l[1] + ":"); b.append(l[1] + ":")
+            a.append(l[1] + ":"); b.append(l[1] + ":"); c.append(l[1] + ":")
         elif l[0] == "raw":
-            a.append("    " + l[1]); b.append("    " + l[1])
+            a.append("    " + l[1]); b.append("    " + l[1]); c.append("    " + l[1])
         else:
             a.append("    %s %s" % (l[1], ", ".join(l[2])))
             b += expand(macros, l[1], l[2], counter)
-    nontriv = any(getattr(m, "nested", False) or m.labels for m in macros)
+            c += expand(macros, l[1], l[2], counter2, only=tainted) if l[1] in tainted else ["    %s %s" % (l[1], ", ".join(l[2]))]
+    nontriv = any(getattr(m, "nested", False) or m.labels or m.locals for m in macros)
     banks = ""
     if rng.random() < 0.3:
         # a second bank whose output offset is not zero: positions inside a block are positions in the bank,
@@ -194,7 +238,8 @@ def gen_macro_program(rng, var):
         base = rng.choice([0x20, 0x40, 0x60])
         banks = ("#bankdef lo { #addr 0x0000, #size 0x10, #outp 0 }\n#bankdef hi { #addr 0x%x, #size 0x90, #outp 8 * 0x10 }\n"
                  "#bank lo\n    nop\n#bank hi\n" % base)
-    return mtext + banks + "\n".join(a) + "\n", itext + banks + "\n".join(b) + "\n", nontriv
+    semi = (mtext + banks + "\n".join(c) + "\n") if tainted else None
+    return mtext + banks + "\n".join(a) + "\n", itext + banks + "\n".join(b) + "\n", nontriv, semi
 
 
 # ---------------------------------------------------------------- functions
@@ -262,12 +307,27 @@ def run(chk):
     thorough = chk.tier == "thorough"
     chk.rule = RULE
     n = 5000 if thorough else 600
+    known = {k["id"]: k for k in fw.known_findings("C17") if k["status"] == "open"}
     cases, ops = [], []
-    for _ in range(n):
-        a, b, nt = gen_macro_program(rng, var=False)
+    semis = {}           # case index -> index of the semi-inlined program's op
+    # witnesses of recorded findings and earlier failures first
+    cdir = os.path.join(fw.VERIF, "corpus", "C17")
+    for fn in sorted(os.listdir(cdir)) if os.path.isdir(cdir) else []:
+        if fn.endswith(".asm") and not fn.endswith(".inl.asm") and not fn.endswith(".semi.asm"):
+            a = open(os.path.join(cdir, fn)).read()
+            b = open(os.path.join(cdir, fn[:-4] + ".inl.asm")).read()
+            cases.append(("macro", a, b, True)); ops += [fw.asm_op([("main.asm", a)]), fw.asm_op([("main.asm", b)])]
+            sp = os.path.join(cdir, fn[:-4] + ".semi.asm")
+            if os.path.exists(sp):
+                semis[len(cases) - 1] = open(sp).read()
+            chk.count("corpus")
+    for i in range(n):
+        a, b, nt, semi = gen_macro_program(rng, var=False, taint=(i % 4 == 3))
         cases.append(("macro", a, b, nt)); ops += [fw.asm_op([("main.asm", a)]), fw.asm_op([("main.asm", b)])]
+        if semi is not None:
+            semis[len(cases) - 1] = semi
     for _ in range(n // 2):
-        a, b, nt = gen_macro_program(rng, var=True)
+        a, b, nt, _s = gen_macro_program(rng, var=True)
         cases.append(("macro_var", a, b, nt)); ops += [fw.asm_op([("main.asm", a)]), fw.asm_op([("main.asm", b)])]
     for _ in range(n // 2):
         # blocks whose labels move in opposite directions between inner passes (growing and shrinking instructions)
@@ -276,6 +336,11 @@ def run(chk):
     for _ in range(n // 2):
         a, b = gen_fn_program(rng)
         cases.append(("fn", a, b, True)); ops += [fw.asm_op([("main.asm", a)]), fw.asm_op([("main.asm", b)])]
+    ncase_ops = len(ops)
+    semi_at = {}
+    for i, t in semis.items():
+        semi_at[i] = len(ops)
+        ops.append(fw.asm_op([("main.asm", t)]))
     rec = [("#ruledef\n{\n    nop => 0x00\n    rec => asm { rec }\n}\nrec\n", "macro calling itself"),
            ("#ruledef\n{\n    nop => 0x00\n    ra {x} => asm { rb {x} }\n    rb {x} => asm { ra {x} }\n}\nra 1\n", "mutually recursive macros"),
            ("#fn f(x) => f(x + 1)\n#d8 f(1)\n", "function calling itself"),
@@ -305,6 +370,22 @@ def run(chk):
                 cert_ops.append("cert %s %s" % (impl[2 * i]["state"], ops[2 * i]))
                 cert_for.append((a, b, la))
             continue
+        if i in semi_at:
+            # the program passes a block label / by-value local of a production into a nested macro call (F40): the
+            # semi-inlined program (only the macros that do so written out) must equal the fully inlined one whatever
+            # happens, and a difference of the macro program is attributed to F40 only then
+            ls = lines[semi_at[i]]
+            bs = bits_of(ls)
+            chk.count("f40_candidate")
+            if ls == "panic" or (bs is None) != (bb is None) or bs != bb:
+                chk.violate("the program with only the F40 call sites written out and the fully hand-expanded program assemble differently",
+                            {"program": semis[i], "inlined": b}, lb[:300], ls[:300])
+                continue
+            if (ba is None) != (bb is None) or ba != bb:
+                if "F40" in known:
+                    chk.count("f40_attributed")
+                    chk.known("F40", known["F40"]["observed"])
+                    continue
         if (ba is None) != (bb is None) or ba != bb:
             chk.violate("the %s program and its hand-expanded twin assemble differently" % ("macro" if kind == "macro" else "function"),
                         {"program": a, "inlined": b}, lb[:300], la[:300])
@@ -314,7 +395,7 @@ def run(chk):
             chk.count("certified" if c == "fixed-point" else "cert_failed")
             if c != "fixed-point":
                 chk.violate("the macro program's result is not self-consistent", {"program": a, "inlined": b}, "fixed-point", c + " | " + la[:200])
-    for (t, what), il in zip(rec, lines[2 * len(cases):]):
+    for (t, what), il in zip(rec, lines[len(ops) - len(rec):]):
         chk.count("recursion_case")
         if not il.startswith("err"):
             chk.violate("unbounded recursion is not reported as an error (%s)" % what, {"program": t}, "error", il[:200])
